@@ -1,6 +1,7 @@
 package main
 
 import (
+	"go/token"
 	"encoding/json"
 	"flag"
 	"fmt"
@@ -25,6 +26,8 @@ func main() {
 		os.Exit(cmdCheck(os.Args[2:]))
 	case "list":
 		os.Exit(cmdList(os.Args[2:]))
+	case "locals":
+		os.Exit(cmdLocals(os.Args[2:]))
 	default:
 		fmt.Fprintln(os.Stderr, "unknown command", os.Args[1])
 		os.Exit(2)
@@ -97,6 +100,7 @@ func loadAll(o *Options) (*World, error) {
 		return nil, err
 	}
 	w.noteSpecTypes()
+	loadLocalHints(o.extspec)
 	registerTemplateAxioms(w)
 	return w, nil
 }
@@ -222,6 +226,17 @@ func cmdList(args []string) int {
 	return 0
 }
 
+var runNotes = map[string]bool{}
+
+// exportedKey: is the function or method named by a contract key part of the package API?
+func exportedKey(k string) bool {
+	name := k
+	if i := strings.LastIndex(name, "."); i >= 0 {
+		name = name[i+1:]
+	}
+	return name != "" && token.IsExported(name)
+}
+
 type funcReport struct {
 	Key         string
 	Paths       int
@@ -273,6 +288,13 @@ func cmdCheck(args []string) int {
 		rep := &funcReport{Key: shortFn(k)}
 		reports = append(reports, rep)
 		fn := w.LookupFunc(k)
+		if fn == nil && !exportedKey(k) {
+			// an unexported helper that no longer exists (inlined into its callers, renamed): nothing calls its
+			// contract, its callers are verified against whatever code replaced it
+			runNotes["contract of unexported helper "+shortFn(k)+" binds to no function of this tree (removed, renamed or inlined): not checked, callers are verified against the code that replaced it"] = true
+			rep.Err = "unbound (unexported helper)"
+			continue
+		}
 		if fn == nil {
 			ob := &Obligation{Name: "bind." + shortFn(k), Func: shortFn(k), Kind: "bind", Status: "failed", Tags: []string{prop},
 				Note: "contract does not bind to any function of the current tree (renamed or deleted?)", Expect: "unsat"}
@@ -294,6 +316,9 @@ func cmdCheck(args []string) int {
 		for n := range ex.havocked {
 			rep.Havocked = append(rep.Havocked, n)
 			havocked[n] = true
+		}
+		for n := range ex.rebound {
+			runNotes["renamed local re-bound through its recorded fingerprint: "+n] = true
 		}
 		sort.Strings(rep.Inlined)
 		sort.Strings(rep.Assumed)
@@ -372,6 +397,9 @@ func report(o *Options, w *World, prop string, seed int, all []*Obligation, repo
 		case "covered":
 			siteCovered[k] = true
 		case "vacuous":
+		case "split":
+			vacuous = append(vacuous, ob) // fatal: the hypotheses are satisfiable for one solver and refuted by another
+			siteUnknown[k] = true
 		default:
 			siteUnknown[k] = true
 		}
@@ -535,6 +563,18 @@ func report(o *Options, w *World, prop string, seed int, all []*Obligation, repo
 			"backend": ob.Backend, "smt_bytes": sz, "time_s": round3(ob.TimeS), "pos": ob.Pos, "clause": ob.Clause})
 		_ = i
 	}
+	// the slowest proof obligations of this run (stability margin against the per-obligation timeout)
+	var slow []*Obligation
+	for _, ob := range all {
+		if ob.Expect != "sat" && !ob.Trivial {
+			slow = append(slow, ob)
+		}
+	}
+	sort.SliceStable(slow, func(i, j int) bool { return slow[i].TimeS > slow[j].TimeS })
+	var slowest []map[string]interface{}
+	for i := 0; i < len(slow) && i < 5; i++ {
+		slowest = append(slowest, map[string]interface{}{"obligation": slow[i].Func + "/" + slow[i].Name, "time_s": round3(slow[i].TimeS), "backend": slow[i].Backend})
+	}
 	var fuc, inl, asm, hav []string
 	paths := 0
 	for _, r := range reports {
@@ -569,8 +609,14 @@ func report(o *Options, w *World, prop string, seed int, all []*Obligation, repo
 		assumptions = append(assumptions, "assumed contract: "+a)
 	}
 	for _, h := range hav {
-		assumptions = append(assumptions, "no contract (havoc everything, sound but coarse): "+h)
+		assumptions = append(assumptions, "no contract (havoc of everything reachable from the arguments by type; everything when an interface or func is reachable): "+h)
 	}
+	var notes []string
+	for n := range runNotes {
+		notes = append(notes, n)
+	}
+	sort.Strings(notes)
+	assumptions = append(assumptions, notes...)
 	assumptions = append(assumptions, propertyNotCovered[prop]...)
 	ev := map[string]interface{}{
 		"property_id": prop, "tier": o.tier, "seed": seed, "level": "proof", "wall_s": round3(time.Since(t0).Seconds()),
@@ -585,6 +631,7 @@ func report(o *Options, w *World, prop string, seed int, all []*Obligation, repo
 			"assumed_contracts": asm, "uncontracted_callees": hav,
 			"vacuity":             map[string]interface{}{"covers": nCover, "covered": nCovered, "vacuous": len(vacuous)},
 			"solver_splits":       d.splits,
+			"slowest_obligations": slowest, "timeout_s": d.timeoutS,
 			"contract_token_scan": scan, "per_function": reports,
 			"failed": names(failed), "undecided": names(undecided), "known_findings_reported": knownLines,
 		},
